@@ -27,7 +27,7 @@ EXTRA = {
     "C17": "all-or-nothing commit (no raise reachable after an append), stored-shape inference for cache attributes, local containers filled by item stores, shared-mutable-object lint for history slots, in-place numpy operations on internal arrays, who-may-rebind the history containers, computed section keys of exported aliases, copy-flag re-binding rule in storing loops, precise reading of copy-and-array tests in the ownership lattice",
     "C18": "coercion/rebinding rule around validation, configuration plumbing and name-crossed positional argument lints, dispatch tables, own-field-only guards of the range rows of the validation table, cap-after-floor rule for the step bounds",
     "C19": "bracket sign/regime rule for the root search, inverse-CDF clamp lint, polymorphic fills and closeness tests in the degree domain, per-coordinate covariance typing of the fit (sa/coord.py), weight-scale typing of the mode factories with sub-vector mass, per-coordinate typing of the mode factories, stateless-step rule for the training step",
-    "C20": "scale typing of the volume metric, for-loop search forms, role-based anchors, reliability-weight covariance lint, flatten-gather lint (take/compress without axis), conditioning budget for relative spectral floors, errstate-underflow lint, `initial=` of max/min reductions in the shift typing (absolute bound mixed into an offset-dependent value)",
+    "C20": "taint rule over the volume metric (no division by a quantity computed from the covariance before the guarded inversion), own-sum normalisation decided in the power-sum algebra, scale typing of the volume metric, for-loop search forms, role-based anchors, reliability-weight covariance lint, flatten-gather lint (take/compress without axis), conditioning budget for relative spectral floors, errstate-underflow lint, `initial=` of max/min reductions in the shift typing (absolute bound mixed into an offset-dependent value)",
 }
 
 CLAIMS = {
